@@ -6,6 +6,9 @@
 int main(void)
 {
 	uint32_t x = ND_U32(), y = ND_U32();
+#ifdef YBITS
+	ASSUME(y < ((uint32_t)1 << YBITS));	/* bounded claim: one operand below 2^YBITS  */
+#endif
 #if defined(T_MUL31)
 	ASSUME(x < 0x80000000u && y < 0x80000000u);
 	CHECK(MUL31(x, y) == (uint64_t)x * (uint64_t)y, "MUL31");
